@@ -98,6 +98,11 @@ def apply_op(lst, op, validate):
         lst[slice(*op[1])] = vs(op[2])
     elif name == "delslice":
         del lst[slice(*op[1])]
+    elif name == "setslice_eq":
+        # equal-but-not-identical replacement for the selected items (1 -> 1.0): a builtin list holds the new objects
+        sel = list(lst)[slice(*op[1])]
+        lst[slice(*op[1])] = vs([float(x) if type(x) is int else (int(x) if type(x) is float and x == int(x) else x)
+                                 for x in sel])
     elif name == "insert":
         x = v(op[2])
         lst.insert(op[1], x)
@@ -165,7 +170,7 @@ def run_single(L, op, ctx, validate=None, tl=None, model=None, vreset=None):
         else:
             val_exc = e2
         # further independent faults of the same call
-        if op[0] in ("setslice", "delslice") and op[1][2] == 0:
+        if op[0] in ("setslice", "delslice", "setslice_eq") and op[1][2] == 0:
             allowed.add(ValueError)
         if op[0] in ("setslice", "extend", "iadd") and not isinstance(op[-1], list):
             allowed.add(TypeError)
@@ -240,6 +245,8 @@ def grid_ops(case):
         a = case["start"]
         for bb, c in itertools.product(vals, steps):
             yield ["delslice", [a, bb, c]]
+            if c != 0:
+                yield ["setslice_eq", [a, bb, c]]
             for m in range(0, L + 3):
                 yield ["setslice", [a, bb, c], list(range(100, 100 + m))]
 
@@ -248,7 +255,7 @@ def op_nontrivial(L, op):
     n = op[0]
     if n in ("delitem", "setitem", "pop", "insert"):
         return op[1] < 0 or op[1] >= L
-    if n in ("delslice", "setslice"):
+    if n in ("delslice", "setslice", "setslice_eq"):
         a, b, c = op[1]
         sel = len(range(*slice(a, b, c).indices(L)))
         return c not in (None, 1) or sel <= 1
@@ -320,6 +327,7 @@ OP = st.one_of(
     st.tuples(st.just("delitem"), IDX),
     st.tuples(st.just("setslice"), st.tuples(OPT_IDX, OPT_IDX, STEP), ITEMS),
     st.tuples(st.just("delslice"), st.tuples(OPT_IDX, OPT_IDX, STEP)),
+    st.tuples(st.just("setslice_eq"), st.tuples(OPT_IDX, OPT_IDX, STEP.filter(lambda x: x != 0))),
     st.tuples(st.just("insert"), IDX, ITEM),
     st.tuples(st.just("pop"), IDX),
     st.tuples(st.just("pop0")),
@@ -364,7 +372,7 @@ def hist_run(case, ctx):
             except TypeError:
                 continue
         ctx.label("op:" + op[0])
-        if op[0] in ("setslice", "delslice"):
+        if op[0] in ("setslice", "delslice", "setslice_eq"):
             if op[1][2] not in (None, 1):
                 interesting = True
                 ctx.label("extended-slice")
